@@ -642,6 +642,11 @@ impl DialectHandler for BigQueryDialect {
         true
     }
 
+    // BigQuery has EXCEPT DISTINCT and INTERSECT DISTINCT only (see the table at the end of this file)
+    fn except_all(&self) -> bool {
+        false
+    }
+
     fn prefers_subquery_parentheses_shorthand(&self) -> bool {
         true
     }
